@@ -14,7 +14,7 @@ CROSS = {"C01-C": ["C08"], "C08-C": ["C02", "C06"], "C16-C": ["C04"], "C05-C": [
          # round 3 (E = first, F = second change of the round)
          "C01-E": ["C08"], "C01-F": ["C08"], "C12-E": ["C13"], "C17-F": ["C09"], "C04-E": ["C10"], "C03-F": ["C04"], "C08-F": ["C04"], "C11-F": ["C04"],
          "C14-F": ["C04"], "C19-E": ["C01"], "C18-F": ["C20"]}
-THOROUGH_ONLY = {("C16-B", "C16"), ("C16-D", "C16"), ("C02-E", "C02")}   # C02-E: needs more than 2^24 evaluations in float
+THOROUGH_ONLY = {("C16-B", "C16"), ("C16-D", "C16")}
 # C19-E / C19-F change the refinement functions themselves (the subject of C08 / C07),
 # which C19 takes as given (it checks that each iteration uses the refinement of the previous result)
 OWN_BY_OTHER = {"C19-E": "C08", "C19-F": "C07"}
